@@ -452,6 +452,66 @@ def blocklist_file_paths(ck, only=None):
     ck.extra["blocklist_file_path_cases"] = len(cases)
 
 
+def indirect_and_bulk(ck, only=None):
+    """(a) a blocklisted type reached only through typedefs / arrays of typedefs, with the hand-written impls switched on
+    (--impl-debug, --impl-partialeq): the holder must compile against a stand-in without trait impls. (b) pattern families large
+    enough to matter to however the patterns are compiled (several `\w+_suffix` patterns; 1 500 plain names): every matching type
+    stays blocklisted."""
+    import re
+    wd = os.path.join(ck.wd, "indirect")
+    os.makedirs(wd, exist_ok=True)
+    hp = os.path.join(wd, "indirect.h")
+    open(hp, "w").write("struct Handle { int h; long l; };\ntypedef struct Handle handle_t;\ntypedef handle_t handle2_t;\n"
+                        "struct Session { handle_t primary; int big[40]; };\nstruct Pool { handle2_t slots[3]; char tag; };\nstruct Direct { struct Handle d; int big[40]; };\n"
+                        "struct Ctl { int a; int big[40]; };\n")
+    rows = [("impl-debug", ["--impl-debug"]), ("impl-partialeq", ["--impl-partialeq", "--with-derive-partialeq"]), ("impl-both+default", ["--impl-debug", "--impl-partialeq", "--with-derive-partialeq", "--with-derive-default"]),
+            ("derives-only", ["--with-derive-default", "--with-derive-hash", "--with-derive-partialeq"])]
+    res = common.run_jobs([{"id": rn, "args": [hp, "--formatter", "prettyplease", "--blocklist-type", "Handle"] + fl} for rn, fl in rows], wd, timeout=60)
+    for rn, fl in rows:
+        r = res[rn]
+        ck.count()
+        ck.nontriv(("indirect", rn))
+        if r["status"] != "ok":
+            ck.violation(f"indirect-blocklist row={rn} generation-failed", {"mode": "indirect", "why": str(r)[:200]})
+            continue
+        bp = os.path.join(wd, f"ind_{rn.replace('+', '_')}.rs")
+        open(bp, "w").write("#![allow(warnings)]\n#[repr(C)] pub struct Handle { h: i32, l: i64 }\n" + r["text"])
+        ok, err = common.rustc_meta(bp)
+        if not ok or re.search(r"\bstruct\s+Handle\b", r["text"]):
+            ck.violation(f"indirect-blocklist row={rn}", {"mode": "indirect", "why": f"--blocklist-type Handle {fl}: " + ("Handle is defined in the output" if ok else
+                         "does not compile against a stand-in without trait impls: " + " | ".join(re.findall(r"error(?:\[E\d+\])?: .*", err)[:3])[:300])})
+    # (b) bulk pattern families
+    n = 1500
+    names = [f"api_{k}_priv" if k % 3 == 0 else (f"mod{k}_impl" if k % 3 == 1 else f"thing{k}") for k in range(n)]
+    hb = os.path.join(wd, "bulk.h")
+    open(hb, "w").write("\n".join(f"struct {nm} {{ int v{k}; }};" for k, nm in enumerate(names)) + "\nstruct keep_me { int k; };\n")
+    suffix_pats = [r"\w+_priv", r"\w+_impl", r"\w+_hidden", r"\w+_internal", r"\w+_detail", r"\w+_opaque", r"\w+_secret", r"\w+_p"]
+    flagsets = [("suffix-patterns", [x for p_ in suffix_pats for x in ("--blocklist-type", p_)], lambda nm: nm.endswith(("_priv", "_impl"))),
+                ("plain-names", [x for nm in names[:n] if nm.startswith("thing") or nm.endswith("_impl") for x in ("--blocklist-type", nm)] , lambda nm: nm.startswith("thing") or nm.endswith("_impl")),
+                ("suffix-patterns-item", [x for p_ in suffix_pats for x in ("--blocklist-item", p_)], lambda nm: nm.endswith(("_priv", "_impl"))),
+                ("opaque-suffix", [x for p_ in suffix_pats for x in ("--opaque-type", p_)], None)]
+    res = common.run_jobs([{"id": fn, "args": [hb, "--formatter", "none", "--no-layout-tests"] + fl, "inventory": True, "timeout": 120} for fn, fl, _ in flagsets], wd, timeout=120)
+    for fn, fl, pred in flagsets:
+        r = res[fn]
+        ck.count()
+        ck.nontriv(("bulk", fn))
+        if r["status"] != "ok":
+            ck.violation(f"bulk-patterns case={fn} generation-failed", {"mode": "indirect", "why": str(r)[:200]})
+            continue
+        dn = defined_names(r["inventory"])
+        if pred is not None:
+            leaked = [nm for nm in names if pred(nm) and nm in dn]
+            lost = [nm for nm in names if not pred(nm) and nm not in dn] + ([] if "keep_me" in dn else ["keep_me"])
+            if leaked or lost:
+                ck.violation(f"bulk-patterns case={fn}", {"mode": "indirect", "why": f"{len(fl) // 2} patterns: {len(leaked)} matching types are still defined (e.g. {leaked[:3]}), {len(lost)} other types are missing (e.g. {lost[:3]})"})
+        else:
+            inv = {it["name"]: it for it in r["inventory"]["items"] if it["kind"] == "struct"}
+            notopaque = [nm for nm in names if nm.endswith(("_priv", "_impl")) and nm in inv and any(f["name"].startswith("v") for f in inv[nm]["fields"])]
+            if notopaque:
+                ck.violation(f"bulk-patterns case={fn}", {"mode": "indirect", "why": f"{len(notopaque)} types matched by an --opaque-type pattern still expose their fields (e.g. {notopaque[:3]})"})
+    ck.extra["indirect_and_bulk_runs"] = len(rows) + len(flagsets)
+
+
 def run(ck, only=None):
     inner = family(ck.tier, ck.seed)
     total = 0
@@ -468,6 +528,8 @@ def run(ck, only=None):
         special_names(ck, only)
     if not only or only.get("mode") == "blfile":
         blocklist_file_paths(ck, only)
+    if not only or only.get("mode") == "indirect":
+        indirect_and_bulk(ck, only)
     ck.sample({"mode": "blocklist", "inner": inner[5].cid, "flags": ["--blocklist-type", "K\\d+_BL"], "stand-in": "#[repr(C, align(A))] pub struct Kn_BL(pub [u8; S]);"})
     ck.extra["holders"] = total
     ck.assume("the stand-in definition is supplied as a raw line with the size and alignment the C compiler reports; it implements no trait "
